@@ -19,6 +19,17 @@ in the comment-stripped source; an unexpected shape is a failed tie (exit status
   minidump.rs        both module readers skip/refuse `size_of_image == 0 ||
                      size_of_image as u64 > (u64::MAX - base_of_image)`; the three `memory_range()`
                      constructors (`checked_add(size)? - 1`, `address.0 > address.1`)
+  op_analysis.rs     (a) the opcode lists the analysis distinguishes — `convert![…]` (AccessDerivableOpcode),
+                     `is_privileged`, `is_division`, the three lists of `InstructionPointerUpdate::
+                     from_instruction` — are written to lean/MdModel/Gen/OpAnalysisTables.lean
+                     (MdProofs.C03 `op_tables_agree` decides that MdModel.OpAnalysis classifies exactly so);
+                     (b) the code of `add_derivable_opcode_explicit_access` (the `match idx` table with the
+                     nine panic! arms), `add_derivable_opcode_implicit_access`, the two operand loops,
+                     `InstructionPointerUpdate::from_instruction`, `MemoryOperandInfo::try_from_operand`,
+                     `MemoryAddressInfo::try_from_operand`, `get_registers` is pinned by hash of its
+                     white-space-normalised text (any edit there must be re-read into the model)
+  arg_recovery.rs    `fill_arguments` and `parse_x86_arg_list` pinned the same way; POINTER_WIDTH -> arg_pointer_width
+  processor.rs       the consumer of the register set (`check_for_bitflips`) and `try_bit_flips` pinned the same way
   process_state.rs   the printers' expressions `base_address() + size() - 1` (x2),
                      `base_of_image + size_of_image as u64` (x2), `frame.instruction - module.raw.base_of_image`,
                      `frame.instruction - func_base`
@@ -30,6 +41,27 @@ import sys
 REPO = os.path.abspath(os.environ.get("VERIF_REPO", "/repo"))
 HERE = os.path.dirname(os.path.abspath(__file__))
 OUT = os.path.join(HERE, "..", "lean", "MdModel", "Gen", "ProcessConsts.lean")
+OUT_TABLES = os.path.join(HERE, "..", "lean", "MdModel", "Gen", "OpAnalysisTables.lean")
+
+# sha256 (first 16 hex digits) of the white-space-normalised, comment-stripped text of the code blocks
+# the models MdModel/OpAnalysis.lean and MdModel/ArgRecovery.lean were read off (VERIF_PRINT_PINS=1 prints them)
+PINS = {
+    "add_derivable_opcode_accesses": "15220cd93d7344fb",
+    "add_derivable_opcode_explicit_access": "d7c672b14b8cae3e",
+    "add_derivable_opcode_implicit_access": "9215c3a8b4e24d6d",
+    "add_underivable_opcode_accesses": "704705725e8ce75d",
+    "add_underivable_opcode_explicit_access": "252d9d085631a496",
+    "impl InstructionPointerUpdate": "f6feedd475a9c015",
+    "impl MemoryOperandInfo": "c774b7541b78cfa9",
+    "impl MemoryAddressInfo": "07a64eb00b89950e",
+    "get_registers": "bf616e9c4e9ce668",
+    "analyze_instruction": "ba32f5cb7fc0257f",
+    "check_for_bitflips": "d1e630677e0d7268",
+    "try_bit_flips": "3f926fdb13e418ef",
+    "try_detect_null_pointer_in_disguise": "926a943cc58748a6",
+    "fill_arguments": "620c6766e3c85ae8",
+    "parse_x86_arg_list": "ab1a920efdd59154",
+}
 
 
 def die(msg):
@@ -47,7 +79,49 @@ def read(rel):
     return text
 
 
+def fn_block(text, header, fname):
+    """the text of the item that starts with `header` up to its closing brace (brace matching)"""
+    i = text.find(header)
+    if i < 0 or text.find(header, i + 1) >= 0:
+        die(f"{fname}: expected exactly one <{header}>")
+    j = text.find("{", i)
+    depth = 0
+    k = j
+    while k < len(text):
+        if text[k] == "{":
+            depth += 1
+        elif text[k] == "}":
+            depth -= 1
+            if depth == 0:
+                return text[i:k + 1]
+        k += 1
+    die(f"{fname}: unbalanced braces after <{header}>")
+
+
+def pin(text, header, fname, expected):
+    import hashlib
+    body = re.sub(r"\s+", " ", fn_block(text, header, fname)).strip()
+    h = hashlib.sha256(body.encode()).hexdigest()[:16]
+    if os.environ.get("VERIF_PRINT_PINS"):
+        print(f"PIN {fname} <{header}> {h}")
+        return
+    if h != expected:
+        die(f"{fname}: the code of <{header}> changed (hash {h}, pinned {expected}); the Lean model "
+            f"(MdModel/OpAnalysis.lean or MdModel/ArgRecovery.lean) was read off the pinned text: re-read it, then re-pin")
+
+
+def names_in(text, fname, what):
+    ns = re.findall(r"Opcode::([A-Z][A-Z0-9]*)", text)
+    if not ns:
+        die(f"{fname}: no opcode names in <{what}>")
+    return ns
+
+
+SHAPES = [0]
+
+
 def one(text, pat, what, fname, count=1, flags=re.S):
+    SHAPES[0] += 1
     ms = list(re.finditer(pat, text, flags))
     if len(ms) != count:
         die(f"{fname}: expected {count} match(es) of <{what}> /{pat}/, found {len(ms)}")
@@ -88,6 +162,52 @@ def main():
     c["push_adjust"] = int(m.group(1))
     one(op, r"let offset = \(instruction_pointer - memory\.base_address\(\)\) as usize;\s*&memory\.bytes\(\)\[offset\.\.\]", "instruction bytes slice", "op_analysis.rs")
 
+    # ---- op_analysis.rs: opcode tables (generated) and the pinned decision logic
+    tables = {}
+    m = one(op, r"convert!\[\s*([A-Z0-9,\s]+?)\s*\]", "AccessDerivableOpcode::from_opcode convert! list", "op_analysis.rs")[0]
+    tables["derivable_names"] = [x.strip() for x in m.group(1).split(",") if x.strip()]
+    enum_body = fn_block(op, "enum AccessDerivableOpcode", "op_analysis.rs")
+    enum_names = re.findall(r"^\s*([A-Z][A-Z0-9]*),", enum_body, flags=re.M)
+    if sorted(enum_names) != sorted(tables["derivable_names"]):
+        die("op_analysis.rs: enum AccessDerivableOpcode and the convert! list differ")
+    tables["privileged_names"] = names_in(fn_block(op, "fn is_privileged(instruction: Instruction) -> bool", "op_analysis.rs"), "op_analysis.rs", "is_privileged")
+    tables["division_names"] = names_in(fn_block(op, "fn is_division(instruction: Instruction) -> bool", "op_analysis.rs"), "op_analysis.rs", "is_division")
+    ipf = fn_block(op, "impl InstructionPointerUpdate", "op_analysis.rs")
+    m = one(ipf, r"match instruction\.opcode\(\) \{\s*((?:Opcode::[A-Z0-9]+\s*\|?\s*)+)=> \{\s*assert_eq!\(\s*instruction\.operand_count\(\),\s*1,", "ip update: call-like opcodes behind assert_eq!(operand_count(), 1)", "op_analysis.rs")[0]
+    tables["calllike_names"] = names_in(m.group(1), "op_analysis.rs", "call-like")
+    m = one(ipf, r"\}\s*((?:Opcode::[A-Z0-9]+\s*\|?\s*)+)=> \{\s*if let \(Ok\(rsp\), Some\(stack\)\) =", "ip update: ret-like opcodes", "op_analysis.rs")[0]
+    tables["retlike_names"] = names_in(m.group(1), "op_analysis.rs", "ret-like")
+    m = one(ipf, r"((?:Opcode::J[A-Z]+\s*\|?\s*)+)=> return Ok\(None\),", "ip update: jcc opcodes", "op_analysis.rs")[0]
+    tables["jcc_names"] = names_in(m.group(1), "op_analysis.rs", "jcc")
+    one(ipf, r"_ => return Ok\(Some\(InstructionPointerUpdate::NoUpdate\)\),", "ip update: default", "op_analysis.rs")
+    m = one(op, r"fn is_only_gpf_when_non_canonical\(instruction: Instruction\) -> bool \{\s*let Some\(opcode\) = AccessDerivableOpcode::from_opcode\(instruction\.opcode\(\)\) else \{\s*return false;\s*\};\s*!matches!\(opcode, AccessDerivableOpcode::MOVAPS\)\s*\}", "is_only_gpf_when_non_canonical", "op_analysis.rs")
+    pin(op, "fn add_derivable_opcode_accesses(", "op_analysis.rs", PINS.get("add_derivable_opcode_accesses"))
+    pin(op, "fn add_derivable_opcode_explicit_access(", "op_analysis.rs", PINS.get("add_derivable_opcode_explicit_access"))
+    pin(op, "fn add_derivable_opcode_implicit_access(", "op_analysis.rs", PINS.get("add_derivable_opcode_implicit_access"))
+    pin(op, "fn add_underivable_opcode_accesses(", "op_analysis.rs", PINS.get("add_underivable_opcode_accesses"))
+    pin(op, "fn add_underivable_opcode_explicit_access(", "op_analysis.rs", PINS.get("add_underivable_opcode_explicit_access"))
+    pin(op, "impl InstructionPointerUpdate", "op_analysis.rs", PINS.get("impl InstructionPointerUpdate"))
+    pin(op, "impl MemoryOperandInfo", "op_analysis.rs", PINS.get("impl MemoryOperandInfo"))
+    pin(op, "impl MemoryAddressInfo", "op_analysis.rs", PINS.get("impl MemoryAddressInfo"))
+    pin(op, "fn get_registers(i: Instruction)", "op_analysis.rs", PINS.get("get_registers"))
+    pin(op, "pub fn analyze_instruction(", "op_analysis.rs", PINS.get("analyze_instruction"))
+    pin(pr, "pub fn check_for_bitflips(", "processor.rs", PINS.get("check_for_bitflips"))
+    pin(pr, "pub fn try_bit_flips(", "processor.rs", PINS.get("try_bit_flips"))
+    pin(pr, "fn try_detect_null_pointer_in_disguise(", "processor.rs", PINS.get("try_detect_null_pointer_in_disguise"))
+
+    # ---- the small sites of the review (notes/C03.md): time stamp, stat reporter, serialization context
+    one(pr, r"time: SystemTime::UNIX_EPOCH \+ Duration::from_secs\(dump\.header\.time_date_stamp as u64\),", "dump time = epoch + u32 seconds", "processor.rs")
+    fmt = read("minidump-common/src/format.rs")
+    one(fn_block(fmt, "pub struct MINIDUMP_HEADER", "format.rs"), r"pub time_date_stamp: u32,", "time_date_stamp is a u32", "format.rs")
+    one(pr, r"stats\.num_threads_processed \+= 1;", "stat counter (threads)", "processor.rs")
+    one(pr, r"stats\.num_frames_processed \+= 1;", "stat counter (frames)", "processor.rs")
+    crate_src = pr + ps + op + read("minidump-processor/src/arg_recovery.rs") + read("minidump-processor/src/lib.rs") + read("minidump-processor/src/evil.rs")
+    for getter in ["get_thread_count", "get_frame_count", "drain_new_frames", "take_unwalked_result"]:
+        one(crate_src, r"\b" + getter + r"\(", f"the asserting getter {getter} is only defined, never called inside the crate", "minidump-processor/src")
+    one(ps, r"SERIALIZATION_CONTEXT", "uses of the serialization context (definition, Display, set_print_context)", "process_state.rs", count=3)
+    one(ps, r"SERIALIZATION_CONTEXT\s*\.with\(\|ctx\| ctx\.borrow\(\)\.pointer_width\.unwrap_or\(PointerWidth::Unknown\)\);", "Display for Address: the borrow is a temporary", "process_state.rs")
+    one(ps, r"SERIALIZATION_CONTEXT\.with\(\|ctx\| \{\s*ctx\.borrow_mut\(\)\.pointer_width = Some\(self\.system_info\.cpu\.pointer_width\(\)\);\s*\}\);", "set_print_context: the mutable borrow is a temporary", "process_state.rs")
+
     wk = read("breakpad-symbols/src/sym_file/walker.rs")
     one(wk, r"fn win_frame_size\(info: &StackInfoWin, grand_callee_param_size: u32\) -> Option<u32> \{\s*info\.local_size\s*\.checked_add\(info\.saved_register_size\)\?\s*\.checked_add\(grand_callee_param_size\)\s*\}",
         "win_frame_size is a checked_add chain", "walker.rs")
@@ -117,6 +237,9 @@ def main():
         "arg recovery read head", "arg_recovery.rs")
     m = one(ar, r"const POINTER_WIDTH: u64 = (\d+);", "arg recovery pointer width", "arg_recovery.rs")[0]
     c["arg_pointer_width"] = int(m.group(1))
+    pin(ar, "pub fn fill_arguments(", "arg_recovery.rs", PINS.get("fill_arguments"))
+    pin(ar, "fn parse_x86_arg_list(", "arg_recovery.rs", PINS.get("parse_x86_arg_list"))
+    one(pr, r"if options\.recover_function_args \{\s*arg_recovery::fill_arguments\(stack, stack_memory\);\s*\}", "fill_arguments call site", "processor.rs")
 
     lines = ["/-", "  GENERATED by translators/consts_process.py from the pipeline sources — do not edit.", "-/",
              "namespace MdModel.Process.Consts", ""]
@@ -127,7 +250,16 @@ def main():
     new = "\n".join(lines)
     if not os.path.exists(OUT) or open(OUT).read() != new:
         open(OUT, "w").write(new)
-    print(f"consts_process.py: {len(c)} constants written, 27 source shapes pinned")
+    tl = ["/-", "  GENERATED by translators/consts_process.py from minidump-processor/src/op_analysis.rs — do not edit.",
+          "  The opcode names op_analysis.rs lists; MdProofs.C03 `op_tables_agree` decides that", "  MdModel.OpAnalysis classifies opcodes exactly so.", "-/",
+          "namespace MdModel.OpAnalysis.Tables", ""]
+    for k in sorted(tables):
+        tl.append(f"def {k} : List String := [" + ", ".join(f'"{n}"' for n in tables[k]) + "]")
+    tl += ["", "end MdModel.OpAnalysis.Tables", ""]
+    new = "\n".join(tl)
+    if not os.path.exists(OUT_TABLES) or open(OUT_TABLES).read() != new:
+        open(OUT_TABLES, "w").write(new)
+    print(f"consts_process.py: {len(c)} constants and {len(tables)} opcode tables written, {SHAPES[0]} source shapes and {len(PINS)} code blocks pinned")
 
 
 if __name__ == "__main__":
